@@ -500,7 +500,7 @@ def run(env, res):
                     if len(lst) < 60 or rng.random() < 0.05:
                         lst.append((t, idx))
             reachable = set(carriers)
-            rounds = 1 if tier == 'quick' else 6
+            rounds = 1 if tier == 'quick' else 4
             order = [(x, y) for x in classes for y in classes if x in reachable and y in reachable and x != 'LEXERR']
             for rnd in range(rounds):
                 rng.shuffle(order)
@@ -532,7 +532,7 @@ def run(env, res):
                     if fresh(t)[0] == 'ok' or rng.random() < 0.15:
                         return t
                 return t
-            for n_tw in range(4000 if tier == 'quick' else 20000):
+            for n_tw in range(4000 if tier == 'quick' else 12000):
                 if res.failures:
                     break
                 if n_tw % 2 == 0:
@@ -573,7 +573,7 @@ def run(env, res):
             # exhaustive: 3 threads x very short texts
             triples = [t for t in itertools.product(SHORT, repeat=3) if sum(steps[x] for x in t) <= (8 if tier == 'quick' else 9)]
             rng.shuffle(triples)
-            for tr in triples[:6 if tier == 'quick' else 60]:
+            for tr in triples[:6 if tier == 'quick' else 45]:
                 if res.failures:
                     break
                 for schedule in sched.interleavings([steps[x] for x in tr]):
